@@ -540,7 +540,7 @@ pub fn c17(tier: Tier) -> PropSpec {
         exhaustive: false,
         parts: vec![Part::with_shrink(
             "histories",
-            tier.pick(120, 2000),
+            tier.pick(250, 3000),
             80,
             || {
                 (2u8..4, proptest::collection::vec(step_strategy(), 5..40))
